@@ -65,6 +65,9 @@ def seeded_palettes(rng, vga):
         ("near-duplicates", near),
         ("greys", sorted(((v, v, v) for v in (rng.randrange(256) for _ in range(16))), reverse=True)),
         ("extreme-components", [(rng.choice(ext), rng.choice(ext), rng.choice(ext)) for _ in range(16)]),
+        # every entry far from the opposite corner (the largest distances the metric can produce)
+        ("dark-corner", [(k, k, k) for k in range(16)]),
+        ("light-corner", [(255 - rng.randrange(12), 255 - rng.randrange(12), 255 - rng.randrange(12)) for _ in range(16)]),
     ]
     return pals
 
